@@ -5,6 +5,7 @@
 import Lean.Data.Json
 import Yabgp.Model.Update
 import Yabgp.Model.Open
+import Yabgp.Model.Session
 import Yabgp.Model.Text
 
 namespace Yabgp.Glue
@@ -232,5 +233,108 @@ def readLocalCaps (j : Json) : Except String LocalCaps := do
          extNexthop := enh, addPath := ap, enhancedRouteRefresh := getBoolD j "enhanced_route_refresh" false,
          gracefulRestart := getBoolD j "graceful_restart" false,
          ciscoMultiSession := getBoolD j "cisco_multi_session" false }
+
+end Yabgp.Glue
+
+/-! ### session model -/
+namespace Yabgp.Glue
+open Lean (Json)
+
+def stName : St → String
+  | .idle => "IDLE" | .connect => "CONNECT" | .active => "ACTIVE" | .openSent => "OPENSENT"
+  | .openConfirm => "OPENCONFIRM" | .established => "ESTABLISHED"
+
+def phaseName : Phase → String
+  | .connecting => "connecting" | .connected => "connected" | .closing => "closing" | .closed => "disconnected"
+
+def statsJson (st : Stats) : Json :=
+  obj [("Opens", nat st.opens), ("Notifications", nat st.notifications), ("Updates", nat st.updates),
+       ("Keepalives", nat st.keepalives), ("RouteRefresh", nat st.routeRefresh)]
+
+def hasUnmodelled (d : List (Nat × AttrVal)) : Bool :=
+  d.any fun kv => match kv.2 with | .unmodelled _ => true | _ => false
+
+def updClassOf (asn4 : Bool) (body : Bytes) : UpdClass :=
+  match parseUpdate asn4 false body with
+  | none => .raises
+  | some r =>
+    if hasUnmodelled r.attr then .unmodelled
+    else match r.subError with
+      | some _ => .malformed
+      | none => .good
+
+def openMsgJson (m : OpenMsg) : Json :=
+  obj [("version", nat m.version), ("asn", nat m.asn), ("hold_time", nat m.holdTime),
+       ("bgp_id", str (Text.ipv4Str m.bgpId)), ("capabilities", capaDictJson m.caps)]
+
+def afiSafiName (r : UpdResult) : Json :=
+  if !r.nlri.isEmpty || !r.withdraw.isEmpty then Json.str "ipv4" else Json.null
+
+def outJson : Out → Json
+  | .write c b => arr [Json.str "write", nat c, hex b]
+  | .lose c => arr [Json.str "lose", nat c]
+  | .connect c => arr [Json.str "connect", nat c]
+  | .hEstablished => arr [Json.str "handler", Json.str "established"]
+  | .hConnLost c => arr [Json.str "handler", Json.str "conn_lost", nat c]
+  | .hConnFailed => arr [Json.str "handler", Json.str "conn_failed"]
+  | .hSendOpen c asn hold id =>
+      arr [Json.str "handler", Json.str "send_open", nat c,
+           obj [("version", nat 4), ("asn", nat asn), ("hold_time", nat hold), ("bgp_id", str (Text.ipv4Str id))]]
+  | .hOpen c m => arr [Json.str "handler", Json.str "open", nat c, openMsgJson m]
+  | .hKeepalive c => arr [Json.str "handler", Json.str "keepalive", nat c]
+  | .hNotification c d => arr [Json.str "handler", Json.str "notification", nat c, hex d]
+  | .hUpdate c asn4 body =>
+      match parseUpdate asn4 false body with
+      | some r => arr [Json.str "handler", Json.str "update", nat c,
+                       obj [("attr", attrsJson r.attr), ("nlri", arr (r.nlri.map pfxJson)),
+                            ("withdraw", arr (r.withdraw.map pfxJson)), ("afi_safi", afiSafiName r)]]
+      | none => arr [Json.str "handler", Json.str "update", nat c, Json.null]
+  | .hUpdateError c body => arr [Json.str "handler", Json.str "update_error", nat c, hex body]
+  | .hRouteRefresh c a r s ty => arr [Json.str "handler", Json.str "route_refresh", nat c, arr [nat a, nat r, nat s, nat ty]]
+  | .retStart v => arr [Json.str "ret", Json.str "start", if v = 2 then Json.str "EST" else Json.bool (v = 1)]
+  | .retStop => arr [Json.str "ret", Json.str "stop", Json.bool true]
+  | .escaped => arr [Json.str "escaped"]
+  | .unmodelled => arr [Json.str "unmodelled"]
+
+def timersJson (tm : Timers) : Json :=
+  obj ((match tm.retry with | some d => [("retry", arr [nat d])] | none => []) ++
+       (match tm.hold with | some d => [("hold", arr [nat d])] | none => []) ++
+       (match tm.keepalive with | some d => [("keepalive", arr [nat d])] | none => []) ++
+       (match tm.idleHold with | some d => [("idlehold", arr [nat d])] | none => []))
+
+def obsJson (s : Sess) : Json :=
+  obj [("state", Json.str (stName s.st)), ("now", nat s.now), ("timers", timersJson s.tm),
+       ("stats", match s.proto with
+                 | some i => obj [("send", statsJson (s.conn i).sent), ("receive", statsJson (s.conn i).recv)]
+                 | none => Json.null),
+       ("conns", arr (s.conns.map fun c => Json.str (phaseName c.phase))),
+       ("proto", optNat s.proto),
+       ("outs", arr (s.outs.map outJson))]
+
+def readCfg (j : Json) : Except String Cfg := do
+  pure { localAs := (← getNat j "local_as"), remoteAs := (← getNat j "remote_as"), holdCfg := (← getNat j "hold_time"),
+         retryT := (← getNat j "connect_retry_time"), idleHoldT := (← getNat j "idle_hold_time"),
+         localId := (← getNat j "local_id"), caps0 := (← readLocalCaps (← j.getObjVal? "caps")) }
+
+def readEv (j : Json) : Except String Ev := do
+  let k ← getStr j "k"
+  match k with
+  | "boot" => pure .boot
+  | "start" => pure .manualStart
+  | "stop" => pure .manualStop
+  | "connok" => pure (.connOk (← getNat j "c"))
+  | "connfail" => pure (.connFail (← getNat j "c"))
+  | "chunk" => pure (.chunk (← getNat j "c") (← getHex j "hex"))
+  | "lost" => pure (.lost (← getNat j "c"))
+  | "advance" => pure (.advance (← getNat j "dt"))
+  | "fire" => do
+      let t ← getStr j "t"
+      match t with
+      | "retry" => pure (.fire .retry)
+      | "hold" => pure (.fire .hold)
+      | "keepalive" => pure (.fire .keepalive)
+      | "idlehold" => pure (.fire .idleHold)
+      | _ => throw s!"bad timer {t}"
+  | _ => throw s!"bad event {k}"
 
 end Yabgp.Glue
